@@ -515,3 +515,276 @@ func ruleV13(r *Run) {
 		r.Undec("table lookups by wire index in package io", 0, "none found")
 	}
 }
+
+// ---------------------------------------------------------------------------------------------------
+// G53 every entry point of the Formatter honours its mode
+
+func init() {
+	register("G53", "every method of io.Formatter that encodes or decodes (it obtains an Encoder or a Decoder) hands the Formatter's own Simple setting to that coder: the method contains a call of the coder's Simple method whose argument is the receiver's Simple field. A reader entry point that builds its decoder another way (NewDecoderFromReader, which starts in simple mode) decodes a reference-mode stream - shared and cyclic graphs that Marshal wrote and Unmarshal reads - without a reference table and fails at the first back-reference", 3, ruleG53)
+}
+
+func ruleG53(r *Run) {
+	p := r.P
+	pkg := p.Pkg("io")
+	if pkg == nil {
+		r.Undec("package io", 0, "not found")
+		return
+	}
+	info := pkg.TypesInfo
+	simpleF := p.LookupField("io", "Formatter", "Simple")
+	if simpleF == nil {
+		r.Undec("io.Formatter.Simple", 0, "not found")
+		return
+	}
+	for _, file := range pkg.Syntax {
+		for _, d := range file.Decls {
+			fd, ok := d.(*ast.FuncDecl)
+			if !ok || fd.Body == nil || fd.Recv == nil {
+				continue
+			}
+			f, _ := info.Defs[fd.Name].(*types.Func)
+			if f == nil {
+				continue
+			}
+			rt := f.Type().(*types.Signature).Recv().Type()
+			if pt, ok := rt.(*types.Pointer); ok {
+				rt = pt.Elem()
+			}
+			if nt, ok := rt.(*types.Named); !ok || nt.Obj().Name() != "Formatter" {
+				continue
+			}
+			usesCoder, handsMode := false, false
+			p.deepInspect(info, fd.Body, 1, func(iinfo *types.Info, m ast.Node) bool {
+				c, ok := m.(*ast.CallExpr)
+				if !ok {
+					return true
+				}
+				if tv, ok := iinfo.Types[c]; ok && tv.Type != nil {
+					ts := tv.Type.String()
+					if strings.HasSuffix(ts, "io.Encoder") || strings.HasSuffix(ts, "io.Decoder") {
+						usesCoder = true
+					}
+				}
+				if methodName(c) == "Simple" && len(c.Args) == 1 && fieldOf(iinfo, c.Args[0]) == simpleF {
+					handsMode = true
+				}
+				return true
+			})
+			if !usesCoder {
+				continue
+			}
+			r.Check(handsMode, "mode handed to the coder in "+p.DeclName(fd), fd.Pos(), ".Simple(f.Simple)", p.DeclName(fd)+" obtains a coder but never calls its Simple method with the Formatter's Simple field: this entry point works in the coder's default mode whatever the Formatter says")
+		}
+	}
+}
+
+// ---------------------------------------------------------------------------------------------------
+// G54 weights stay paired with their servers; L16 a private random generator is not shared unlocked
+
+func init() {
+	register("G54", "the weighted balancers' table is built pair by pair: in rpc/plugins/loadbalance the function that turns the caller's map of addresses to weights into the parallel lists (it ranges over a map parameter and fills a Weights field) takes each weight from the VALUE of the same range iteration that yields the address, not from a second lookup under a re-serialised key - url.Parse(key).String() is not always key (an upper-case scheme, a default port), and a missed lookup silently gives the server weight 0: it is never picked by any weighted policy", 1, ruleG54)
+	register("L16", "a *math/rand.Rand is not safe for concurrent use: in rpc/plugins, whose handlers run on every calling goroutine at once, a method of a *rand.Rand held in a field is called only in a function that takes a mutex first - or the package-level functions of math/rand (which lock) are used. An unlocked private generator races in its state and Intn returns values out of range (index out of range [-1] in the caller's goroutine, about once in 10^5 calls under load)", 0, ruleL16)
+}
+
+func ruleG54(r *Run) {
+	p := r.P
+	pkg := p.Pkg("rpc/plugins/loadbalance")
+	if pkg == nil {
+		r.Undec("package rpc/plugins/loadbalance", 0, "not found")
+		return
+	}
+	info := pkg.TypesInfo
+	n := 0
+	for _, file := range pkg.Syntax {
+		for _, d := range file.Decls {
+			fd, ok := d.(*ast.FuncDecl)
+			if !ok || fd.Body == nil {
+				continue
+			}
+			// a map[string]int parameter
+			var mp *types.Var
+			for _, pv := range paramsOf(info, fd.Type) {
+				if m, ok := pv.Type().Underlying().(*types.Map); ok {
+					if b, ok := m.Key().Underlying().(*types.Basic); ok && b.Kind() == types.String {
+						mp = pv
+					}
+				}
+			}
+			if mp == nil {
+				continue
+			}
+			// the range over it
+			var rs *ast.RangeStmt
+			ast.Inspect(fd.Body, func(m ast.Node) bool {
+				if x, ok := m.(*ast.RangeStmt); ok && identObj(info, x.X) == types.Object(mp) {
+					rs = x
+				}
+				return true
+			})
+			// assignments to elements of a field named Weights
+			var stores []*ast.AssignStmt
+			ast.Inspect(fd.Body, func(m ast.Node) bool {
+				if as, ok := m.(*ast.AssignStmt); ok && len(as.Lhs) == 1 && len(as.Rhs) == 1 {
+					if ix, ok := ast.Unparen(as.Lhs[0]).(*ast.IndexExpr); ok {
+						if fv := fieldOf(info, ix.X); fv != nil && refName(fv.Name()) == "Weights" {
+							stores = append(stores, as)
+						}
+					}
+				}
+				return true
+			})
+			if rs == nil || len(stores) == 0 {
+				continue
+			}
+			val := identObj(info, rs.Value)
+			for i, as := range stores {
+				n++
+				key := fmt.Sprintf("weight paired with its server in %s #%d", p.DeclName(fd), i+1)
+				inLoop := as.Pos() > rs.Body.Pos() && as.End() < rs.Body.End()
+				fromValue := val != nil && mentionsObj(info, as.Rhs[0], val)
+				r.Check(inLoop && fromValue, key, as.Pos(), "taken from the value of the iteration that yields the address", "the weight is `"+types.ExprString(as.Rhs[0])+"`, not the value of the range iteration over "+mp.Name()+": a lookup under anything but the caller's own key can miss, and the server gets weight 0")
+			}
+		}
+	}
+	if n == 0 {
+		r.Undec("weight table construction in rpc/plugins/loadbalance", 0, "no function that ranges over a map parameter and fills Weights found")
+	}
+}
+
+func ruleL16(r *Run) {
+	p := r.P
+	n := 0
+	for _, pkg := range p.Pkgs {
+		if !strings.Contains(pkg.PkgPath, "/rpc/plugins/") {
+			continue
+		}
+		info := pkg.TypesInfo
+		for _, file := range pkg.Syntax {
+			for _, d := range file.Decls {
+				fd, ok := d.(*ast.FuncDecl)
+				if !ok || fd.Body == nil {
+					continue
+				}
+				k := 0
+				ast.Inspect(fd.Body, func(m ast.Node) bool {
+					c, ok := m.(*ast.CallExpr)
+					if !ok {
+						return true
+					}
+					sel, ok := ast.Unparen(c.Fun).(*ast.SelectorExpr)
+					if !ok {
+						return true
+					}
+					tv, ok := info.Types[sel.X]
+					if !ok || tv.Type == nil || tv.Type.String() != "*math/rand.Rand" || fieldOf(info, sel.X) == nil {
+						return true
+					}
+					n++
+					k++
+					key := fmt.Sprintf("private random generator used in %s #%d", p.DeclName(fd), k)
+					locked := false
+					ast.Inspect(fd.Body, func(q ast.Node) bool {
+						if lc, ok := q.(*ast.CallExpr); ok && lc.Pos() < c.Pos() {
+							if mv, op := lockOp(info, lc); mv != nil && op == "Lock" {
+								locked = true
+							}
+						}
+						return true
+					})
+					r.Check(locked, key, c.Pos(), "under a mutex", "`"+types.ExprString(c)+"` calls a *rand.Rand that is shared by every goroutine passing through the handler, without a lock: the generator's state is corrupted by concurrent use and it returns values outside [0, n)")
+					return true
+				})
+			}
+		}
+	}
+	if n == 0 {
+		r.Ok("no private *rand.Rand in the plugins", 0, "the package-level functions of math/rand lock")
+	}
+}
+
+// ---------------------------------------------------------------------------------------------------
+// S17 only a 200 carries a response
+
+func init() {
+	register("S17", "the HTTP client transports (rpc/http, rpc/http/fasthttp) hand the body of the HTTP response to the caller as the RPC response only when the status is 200 OK: the return that yields the body is reached under an equality of the status code with http.StatusOK (fasthttp.StatusOK) - a switch case that lists only that constant, or an == test. Any other status, 2xx included (a 202 or 204 from a gateway whose upstream is gone), is an error of the exchange: returned as (body, nil) it is a SUCCESS for every plugin above the transport - a circuit breaker resets its count on it and never opens - while the caller gets a decoding error", 1, ruleS17)
+}
+
+func ruleS17(r *Run) {
+	p := r.P
+	n := 0
+	for _, rel := range []string{"rpc/http", "rpc/http/fasthttp"} {
+		fd, pkg := p.DeclOf(rel, "Transport.Transport")
+		if fd == nil {
+			continue
+		}
+		info := pkg.TypesInfo
+		parents := parentMap(fd.Body)
+		isStatusOK := func(e ast.Expr) bool {
+			o := qualObj(info, e)
+			return o != nil && o.Name() == "StatusOK"
+		}
+		mentionsStatus := func(e ast.Expr) bool {
+			found := false
+			ast.Inspect(e, func(q ast.Node) bool {
+				if c, ok := q.(*ast.CallExpr); ok && methodName(c) == "StatusCode" {
+					found = true
+				}
+				if sel, ok := q.(*ast.SelectorExpr); ok && sel.Sel.Name == "StatusCode" {
+					found = true
+				}
+				return true
+			})
+			return found
+		}
+		k := 0
+		ast.Inspect(fd.Body, func(m ast.Node) bool {
+			ret, ok := m.(*ast.ReturnStmt)
+			if !ok || len(ret.Results) == 0 {
+				return true
+			}
+			// a return that yields the body: its first result mentions Body (resp.Body, resp.Body())
+			yields := false
+			ast.Inspect(ret.Results[0], func(q ast.Node) bool {
+				if sel, ok := q.(*ast.SelectorExpr); ok && sel.Sel.Name == "Body" {
+					yields = true
+				}
+				return true
+			})
+			if !yields {
+				return true
+			}
+			// the status must have been looked at somewhere in the function for this to be the status-dependent return
+			n++
+			k++
+			key := fmt.Sprintf("body returned only for 200 in %s.Transport.Transport #%d", rel, k)
+			good := false
+			for _, f := range factsWithSwitch(parents, ret) {
+				if b, ok := ast.Unparen(f.e).(*ast.BinaryExpr); ok && b.Op == token.EQL && !f.neg {
+					if (mentionsStatus(b.X) && isStatusOK(b.Y)) || (mentionsStatus(b.Y) && isStatusOK(b.X)) {
+						good = true
+					}
+				}
+			}
+			for q := parents[ret]; q != nil && !good; q = parents[q] {
+				if cc, ok := q.(*ast.CaseClause); ok {
+					if blk, ok := parents[cc].(*ast.BlockStmt); ok {
+						if sw, ok := parents[blk].(*ast.SwitchStmt); ok && sw.Tag != nil && mentionsStatus(sw.Tag) {
+							all := len(cc.List) > 0
+							for _, e := range cc.List {
+								if !isStatusOK(e) {
+									all = false
+								}
+							}
+							good = all
+						}
+					}
+				}
+			}
+			r.Check(good, key, ret.Pos(), "under status == StatusOK", "the response body is returned as the result of the exchange on a path that is not limited to status 200: another status - a 202 or 204 of an intermediary - counts as a successful call for the plugins above (the breaker resets), and its body is decoded as an RPC response")
+			return true
+		})
+	}
+	if n == 0 {
+		r.Undec("HTTP client transports", 0, "no return of a response body found in rpc/http(.fasthttp).Transport.Transport")
+	}
+}
